@@ -222,13 +222,206 @@ fn inner(seed: u64, actions: &mut Vec<String>, calls_checked: &mut u64, nontrivi
     Ok(())
 }
 
+// ------------------------------------------------------------------------------------------
+// the memoised function itself is created inside a bind closure: its nodes belong to that bind
+// ------------------------------------------------------------------------------------------
+
+type Memo = Box<dyn FnMut(i64) -> Incr<i64>>;
+
+struct HeldInner {
+    gen: u64,
+    v: i64,
+    key: i64,
+    node: Incr<i64>,
+    obs: Option<Observer<i64>>,
+}
+
+pub fn run_history_inner(seed: u64) -> Outcome {
+    let mut actions = vec![];
+    let mut calls_checked = 0u64;
+    let mut nontrivial = false;
+    let r = catch_unwind(AssertUnwindSafe(|| inner_scoped(seed, &mut actions, &mut calls_checked, &mut nontrivial)));
+    let violation = match r {
+        Ok(Ok(())) => None,
+        Ok(Err(m)) => Some(m),
+        Err(e) => Some(format!("panic: {}", crate::panic_message(e))),
+    };
+    Outcome { nontrivial, violation, actions, calls_checked }
+}
+
+fn inner_scoped(seed: u64, actions: &mut Vec<String>, calls_checked: &mut u64, nontrivial: &mut bool) -> Result<(), String> {
+    let mut rng = Rng::new(seed ^ 0x5c09ed);
+    let st = IncrState::new();
+    let base = st.var(10i64);
+    let calls: Rc<RefCell<Vec<(u64, i64)>>> = Rc::new(RefCell::new(vec![]));
+    let stash: Rc<RefCell<Option<(u64, i64, Memo)>>> = Rc::new(RefCell::new(None));
+    let gen_ctr = Rc::new(Cell::new(0u64));
+    let msel = st.var(0i64);
+    // the maker's closure returns the same node on every run in half of the histories
+    let same_rhs = rng.chance(1, 2);
+    let fixed = st.constant(-1i64);
+    let maker: Incr<i64> = {
+        let (calls, stash, gen_ctr, basew, fixed) = (calls.clone(), stash.clone(), gen_ctr.clone(), base.watch(), fixed.clone());
+        msel.binds(move |ws, &v| {
+            let st = ws.upgrade().unwrap();
+            let gen = gen_ctr.get() + 1;
+            gen_ctr.set(gen);
+            let (calls, basew) = (calls.clone(), basew.clone());
+            let mut memo = st.weak_memoize_fn(move |k: i64| {
+                calls.borrow_mut().push((gen, k));
+                basew.map(move |b| b + k + 100 * v)
+            });
+            let ret = if same_rhs { fixed.clone() } else { memo(0) };
+            *stash.borrow_mut() = Some((gen, v, Box::new(memo)));
+            ret
+        })
+    };
+    let mut maker = Some((maker.observe(), maker, msel));
+    st.stabilise();
+    let mut held: Vec<HeldInner> = vec![];
+    let mut base_val = 10i64;
+    let mut msel_at_last_stabilise = 0i64;
+    // generations whose bind scope has been torn down by a re-run of the maker
+    let mut cur_gen = gen_ctr.get();
+    if cur_gen != 1 {
+        return Err(format!("maker closure ran {cur_gen} times in the first stabilise"));
+    }
+    let mut maker_dead = false;
+    let n_actions = 15 + rng.below(30);
+    for _ in 0..n_actions {
+        match rng.below(10) {
+            0 | 1 | 2 | 3 => {
+                let k = rng.below(KEYS as usize) as i64;
+                let (gen, v) = {
+                    let s = stash.borrow();
+                    let s = s.as_ref().unwrap();
+                    (s.0, s.1)
+                };
+                // in non-same mode the bind itself holds the node for key 0 of the current generation
+                let bind_holds = !same_rhs && k == 0 && !maker_dead;
+                let live = held.iter().filter(|h| h.gen == gen && h.key == k).count() + bind_holds as usize;
+                let before = calls.borrow().len();
+                let node = {
+                    let mut s = stash.borrow_mut();
+                    (s.as_mut().unwrap().2)(k)
+                };
+                let after = calls.borrow().len();
+                *calls_checked += 1;
+                actions.push(format!("call(gen {gen}, key {k}) live_refs={live} invoked={} maker_dead={maker_dead}", after - before));
+                if live > 0 {
+                    if after != before {
+                        return Err(format!("memoised call for key {k} invoked the function although {live} reference(s) to its node are alive"));
+                    }
+                    if let Some(h) = held.iter().find(|h| h.gen == gen && h.key == k) {
+                        if h.node != node {
+                            return Err(format!("memoised call for key {k} returned a different node while one is still held"));
+                        }
+                    }
+                }
+                if maker_dead {
+                    *nontrivial = true;
+                }
+                let obs = if rng.chance(2, 3) { Some(node.observe()) } else { None };
+                held.push(HeldInner { gen, v, key: k, node, obs });
+            }
+            4 => {
+                if !held.is_empty() {
+                    let i = rng.below(held.len());
+                    let h = held.remove(i);
+                    actions.push(format!("drop_held(gen {}, key {})", h.gen, h.key));
+                }
+            }
+            5 | 6 => {
+                if let Some((_, _, msel)) = &maker {
+                    let v = rng.below(3) as i64;
+                    msel.set(v);
+                    actions.push(format!("maker_input={v}"));
+                }
+            }
+            7 => {
+                base_val = rng.range(0, 50);
+                base.set(base_val);
+                actions.push(format!("base={base_val}"));
+            }
+            8 => {
+                // tear the maker down completely: unobserve, stabilise, drop the last handles
+                if rng.chance(1, 3) {
+                    if let Some((o, m, sel)) = maker.take() {
+                        let will_rerun = sel.get() != msel_at_last_stabilise;
+                        drop(o);
+                        if will_rerun {
+                            // an unobserved bind does not re-run; keep the bookkeeping simple
+                            sel.set(msel_at_last_stabilise);
+                        }
+                        st.stabilise();
+                        drop(m);
+                        drop(sel);
+                        st.stabilise();
+                        maker_dead = true;
+                        actions.push("maker torn down and dropped".into());
+                    }
+                }
+            }
+            _ => {
+                st.stabilise();
+                if let Some((_, _, msel)) = &maker {
+                    let v = msel.get();
+                    let reran = v != msel_at_last_stabilise;
+                    msel_at_last_stabilise = v;
+                    let g = gen_ctr.get();
+                    if reran != (g != cur_gen) {
+                        return Err(format!("maker bind input changed={reran} but its closure ran {} time(s)", g - cur_gen));
+                    }
+                    if reran && held.iter().any(|h| h.gen == cur_gen) {
+                        *nontrivial = true;
+                    }
+                    cur_gen = g;
+                }
+                actions.push(format!("stabilise (generation now {cur_gen})"));
+                for h in &held {
+                    let Some(o) = &h.obs else { continue };
+                    let got = o.try_get_value();
+                    if h.gen == cur_gen {
+                        let want = base_val + h.key + 100 * h.v;
+                        match got {
+                            Ok(x) if x == want => {}
+                            Err(ObserverError::NeverStabilised) => {}
+                            other => {
+                                return Err(format!(
+                                    "node for key {} made by the memoised function of the current run (generation {}, maker_dead={maker_dead}) reads {:?}, expected {want}",
+                                    h.key, h.gen, other
+                                ))
+                            }
+                        }
+                    } else {
+                        match got {
+                            Err(ObserverError::ObservingInvalid) | Err(ObserverError::NeverStabilised) => {}
+                            other => {
+                                return Err(format!(
+                                    "node for key {} made by a memoised function created in an earlier run of its bind (generation {} < {cur_gen}) is still served: {:?} (it belongs to the scope weak_memoize_fn was called in, which has been re-run)",
+                                    h.key, h.gen, other
+                                ))
+                            }
+                        }
+                    }
+                }
+            }
+        }
+    }
+    drop(held);
+    drop(maker);
+    stash.borrow_mut().take();
+    st.stabilise();
+    Ok(())
+}
+
 pub fn run(seed: u64, shard: u64, count: u64) -> J {
     let (mut nontrivial, mut checked) = (0u64, 0u64);
     let mut violations = vec![];
     let mut samples = vec![];
     for i in 0..count {
         let hseed = mix(mix(seed, shard), i);
-        let o = run_history(hseed);
+        let o = if i % 3 == 2 { run_history_inner(hseed) } else { run_history(hseed) };
         checked += o.calls_checked;
         if o.nontrivial {
             nontrivial += 1;
@@ -241,7 +434,7 @@ pub fn run(seed: u64, shard: u64, count: u64) -> J {
                 violations.push(J::obj(vec![
                     ("property", J::s("C20")),
                     ("message", J::s(format!("{m}; history: {:?}", o.actions))),
-                    ("argv", J::Arr(vec![J::s("memo-one"), J::s(hseed.to_string())])),
+                    ("argv", J::Arr(vec![J::s("memo-one"), J::s(hseed.to_string()), J::s(if i % 3 == 2 { "inner" } else { "top" })])),
                 ]));
             }
         }
